@@ -54,6 +54,10 @@ def base_config():
     return text, versions, {"VERIF_S3": "v3"}
 
 
+# what the configuration text above SAYS about each route (the oracle must not learn the auth requirement from the compiled output only)
+EXPECT_AUTH = {"/hm": "hmac", "/hm2": "hmac", "/rot": "hmac", "/rot2": "hmac", "/basic": "basic", "/fwd": "forward", "/fwdclosed": "forward",
+               "/open": None, "/small": "hmac", "/fan": "hmac", "/rl": "basic"}
+EXPECT_BASIC = {"/basic": {"alice": "s3cret", "bob": "pa:ss"}, "/rl": {"alice": "s3cret"}}
 NAMES = {"/hm2": ("X-Hub-Sig", "x-hub-time", "X-Request-Nonce")}
 DEFAULT_NAMES = ("X-Signature", "X-Timestamp", "X-Nonce")
 TOLS = {"/hm": TOL, "/hm2": SEC, "/rot": TOL, "/rot2": TOL, "/small": TOL, "/fan": TOL}
@@ -686,6 +690,16 @@ def main(ctx, replay):
                 if not io["load_ok"]:
                     raise RuntimeError("config did not load: %s" % io.get("load_err"))
                 route_infos[si] = {r["path"]: r for r in io["routes"]}
+                if s["name"] == scen[0]["name"]:
+                    for rp, want in EXPECT_AUTH.items():
+                        r = route_infos[si].get(rp)
+                        got = None if r is None else ("hmac" if r["hmac"] else "basic" if r["basic"] else "forward" if r["forward"] else None)
+                        basic_got = None if r is None else {bytes.fromhex(u).decode(): bytes.fromhex(pw).decode() for u, pw in (r["basic"] or {}).items()}
+                        if r is None or got != want or (want == "basic" and basic_got != EXPECT_BASIC[rp]) or \
+                                (want == "hmac" and sorted(bytes.fromhex(x) for x in (r["static_secrets"] or [])) != sorted(STATIC[rp])):
+                            C.report(ctx, "auth-requirement-lost-in-compile:%s" % rp,
+                                     "route %s is configured with %s authentication, the compiled runtime configuration says %s" % (rp, want, got if r is not None else "no such route"),
+                                     {"kind": "program", "case": {"config": text, "route": rp}, "observed": r, "expected": {"auth": want}})
                 continue
             if st["op"] == "select":
                 selected[json.loads(st["wire"])["route"]] = io["selected"]
